@@ -25,6 +25,7 @@ def run(ctx, rep):
     rep.rule('E8b', e8b_matrix.__doc__.strip().split('\n')[0])
     e8b_matrix.check_split_combine(facts, rep)
     e8b_matrix.check_trans_order(facts, rep)
+    e8b_matrix.check_index_maps(facts, rep)
     e2_float.apply(facts, rep, scope, 'C13', floor_scope=150)
     rep.rule('E27', e27_trans.__doc__.strip().split('\n')[0])
     e27_trans.run(facts, rep)
